@@ -147,17 +147,20 @@ ADD7 = {
 }
 ADD8 = {p: " Round 8: rules are evaluated on functions with same-file helpers spliced in and on function+closure units where that matters; the thorough tier also applies 45 behaviour-preserving patches (neutral/) and fails on any report (T-neutral)." for p in ["C%02d" % i for i in range(1, 16)]}
 ADD9 = {
- "C02": " Round 9: declarations are told apart by name or identity, never by comparing their contents (R-C02-identity); the analyzer never takes a name apart (R-C02-wholename).",
+ "C02": " Round 9: declarations are told apart by name or identity, never by comparing their contents (R-C02-identity); the analyzer never takes a name apart (R-C02-wholename). Every field of the DSL that names a type is classified and every use is read by the type resolver on every containment path (R-C02-typefields); a declaration's own name enters its scope only for functions (R-C02-selfname); nothing below a program connection is looked up in the configuration's scope (R-C02-foreignscope); every initializer kind in which a function block instance can be written can become the FunctionBlock initializer (R-C02-fbinst). A table is not keyed by a digest of its contents (R-C02/C06/C07-keys).",
  "C03": " Round 9: the glue around the analysis never decides on the code of a problem (R-C03-anycode).",
  "C04": " Round 9: no element-by-element walk over an integer range whose bounds are numbers written in the source (R-C04-magnitude); no two alternatives of an ordered choice enter the same self-embedding rule after the same tokens unless it is #[cache]d (R-C04-backtrack, grammar analysis; found and fixed 2^depth re-parsing); the lexer reports a run of invalid text once (R-C04-errrun; found and fixed quadratic output); the loop-progress rule knows that cutting a text at a found position is no progress; indent()/outdent() are unconditional +1/-1.",
- "C05": " Round 9: every call of the CLI's handle_diagnostics made where a project exists passes it (R-C05-display; echo showed labels against empty text, fixed); a node built by a fold takes its position-bearing parts from the node it replaces (R-C05-synth); directly represented variables now carry positions (6 known findings fixed).",
- "C07": " Round 9: the current-container field is found through a helper that every override calls with the declaration's own name.",
- "C08": " Round 9: only a keyword that ends a statement arms the terminator inserter, evaluated for every TokenType variant against the grammar (R-C08-endif-arm); a function that singles out comment tokens looks at no more than the opener of their text (R-C08-commenttext).",
- "C10": " Round 9: token agreement between grammar and writer (R-C10-tokens): for every node kind, among the productions with own terminals that build it at least one has all its terminals spelled by a writer of the node (override, field readers, nearest overriding ancestors beyond what their own productions need); found 26 nodes whose delimiters/keywords were never written, 14 repaired by fix: commits, 5 frozen by fixtures recorded as known. Also: the renderer's own panic inventory and indentation balance (R-C10-panic/-pair), no token-level pass singles out bracket tokens (R-C10-delimcount).",
- "C11": " Round 9: every problem LspProject::semantic returns comes out of its one call of Project::semantic (R-C11-origin).",
+ "C05": " Round 9: every call of the CLI's handle_diagnostics made where a project exists passes it (R-C05-display; echo showed labels against empty text, fixed); a node built by a fold takes its position-bearing parts from the node it replaces (R-C05-synth); directly represented variables now carry positions (6 known findings fixed). A published diagnostic takes the label that lies in the document (R-C05-doclabel); the span of a negative bound covers sign and digits (R-C05-signspan); positions written as fold accumulators are accepted (R-C05-rangeend).",
+ "C07": " Round 9: the current-container field is found through a helper that every override calls with the declaration's own name. The Simple initializer adds its edge and the builder does not descend into VAR_EXTERNAL declarations (fix ef105cc; the reference-kind clause of R-C07-edges decides the cut on the builder's own visit_var_decl).",
+ "C08": " Round 9: only a keyword that ends a statement arms the terminator inserter, evaluated for every TokenType variant against the grammar (R-C08-endif-arm); a function that singles out comment tokens looks at no more than the opener of their text (R-C08-commenttext). The comment token written as `#[token(\"(*\", callback)]` is exactly `(*` .. first `*)`: the callback searches lexer.remainder() forward for the constant closer and bumps past it (second recogniser of R-C08-comment).",
+ "C10": " Round 9: token agreement between grammar and writer (R-C10-tokens): for every node kind, among the productions with own terminals that build it at least one has all its terminals spelled by a writer of the node (override, field readers, nearest overriding ancestors beyond what their own productions need); found 26 nodes whose delimiters/keywords were never written, 14 repaired by fix: commits, 5 frozen by fixtures recorded as known. Also: the renderer's own panic inventory and indentation balance (R-C10-panic/-pair), no token-level pass singles out bracket tokens (R-C10-delimcount). No blank is written inside a lexical token (R-C10-glue); a DSL enum written with the Debug formatter must be named by the text the front end reads for every variant that reaches that place (R-C10-debugname).",
+ "C11": " Round 9: every problem LspProject::semantic returns comes out of its one call of Project::semantic (R-C11-origin). A published diagnostic takes the label that lies in the document (R-C11-doclabel); only a URL with scheme `file` is a file (R-C11-scheme, fix f50a9a7).",
  "C12": " Round 9: R-C12-magnitude/-backtrack/-errrun (as C04: the same parser and lexer run on didOpen/didChange).",
- "C13": " Round 9: an Err that is stored and handed to a loop that matches every item is no obligation of the arm that stores it (R-C13-emit); non-emptiness is followed through one-to-one adaptors (R-C13-nonempty).",
- "C14": " Round 9: nothing is decided on the encoded size of a source file (R-C14-bytesize).",
+ "C13": " Round 9: an Err that is stored and handed to a loop that matches every item is no obligation of the arm that stores it (R-C13-emit); non-emptiness is followed through one-to-one adaptors (R-C13-nonempty). The command functions are decided with the helpers of cli.rs spliced in and the variant of each Result variable tracked per path; the panic inventory of cli.rs/main (R-C13-panic) re-binds a justification only when it is free in the whole inventory.",
+ "C14": " Round 9: nothing is decided on the encoded size of a source file (R-C14-bytesize); the API and raw-bytes rules are decided on the decoding unit (path_to_source, its closures and the helpers of source.rs it calls).",
+ "C01": " Round 9: a component read somewhere in a grammar action is read on every path (R-C01-consume, path clause); a field the parser fills and nothing but derived code reads (R-C01-deadfield); every word expected as an identifier token matches the lexer's Identifier pattern (R-C01-ideq).",
+ "C09": " Round 9: every id_eq/dt_sep word is an Identifier for the lexer (R-C09-ideq); the duration guard is recognised in the is_some_and form and through a helper that receives (unit, constructor) together; the magnitude of a signed literal is not compared with a signed type's maximum without the sign (R-C09-signedbound).",
+ "C15": " Round 9: R-C15-scheme (as C11); the re-encoding of tokens may live in a helper of the same file; the null-result rule finds the function that asks for the tokens.",
 }
 NA_REASON = "check not built yet (round 1 in progress); see DESIGN.md section 3 for the planned static rules"
 props = [json.loads(l) for l in open("/verif/properties.jsonl")]
